@@ -34,6 +34,29 @@ Lemma Forall2_imp A B (R1 R2:A -> B -> Prop) :
   (forall a b, R1 a b -> R2 a b) -> forall l l', Forall2 R1 l l' -> Forall2 R2 l l'.
 Proof. intros H l l' F. induction F; constructor; auto. Qed.
 
+Lemma Forall2_imp_In A B (R1 R2:A -> B -> Prop) l l' :
+  (forall a b, In a l -> R1 a b -> R2 a b) -> Forall2 R1 l l' -> Forall2 R2 l l'.
+Proof.
+  intros H F. induction F; constructor.
+  - apply H; simpl; auto.
+  - apply IHF. intros; apply H; simpl; auto.
+Qed.
+
+Lemma Forall2_In_l A B (R:A -> B -> Prop) l l' x : Forall2 R l l' -> In x l -> exists y, In y l' /\ R x y.
+Proof.
+  induction 1; simpl; intros HI; [contradiction|]. destruct HI as [->|HI]; eauto.
+  destruct (IHForall2 HI) as [y0 [? ?]]; eauto.
+Qed.
+
+Lemma Forall2_In_r A B (R:A -> B -> Prop) l l' y : Forall2 R l l' -> In y l' -> exists x, In x l /\ R x y.
+Proof.
+  induction 1; simpl; intros HI; [contradiction|]. destruct HI as [->|HI]; eauto.
+  destruct (IHForall2 HI) as [x0 [? ?]]; eauto.
+Qed.
+
+Lemma Forall2_refl_In A (R:A -> A -> Prop) l : (forall x, In x l -> R x x) -> Forall2 R l l.
+Proof. induction l; constructor; simpl in *; auto. Qed.
+
 Lemma mapM_length A B (f:A -> outcome B) l r : mapM f l = Ok r -> length r = length l.
 Proof. intro H. apply mapM_Forall2 in H. induction H; simpl; auto. Qed.
 
@@ -320,6 +343,7 @@ Definition arr_general (s:st) (ty:vtype) (x:str) (shape:option (list str)) (rows
     end.
 
 Definition arr_template (s:st) (ty:vtype) (x:str) (shape:option (list str)) (p:str) : outcome st :=
+  if mem_str p (s_pars s) then Unspec else
   match shape with
   | None => Refuse EArrayNoShape
   | Some sh =>
@@ -346,7 +370,7 @@ Proof. reflexivity. Qed.
 
 Inductive arr_result (s:st) (ty:vtype) (x:str) (shape:option (list str)) (rows:list (list expr)) (s':st) : Prop :=
 | AR_template p sh r c :
-    rows = [[EPar p]] -> shape = Some sh -> shape_vals sh = Some [r; c] ->
+    rows = [[EPar p]] -> ~ In p (s_pars s) -> shape = Some sh -> shape_vals sh = Some [r; c] ->
     (r <= 64)%Z -> (c <= 64)%Z ->
     s' = mkst (dict_set x (VArr ty (Z.to_nat r) (Z.to_nat c)
                              (map (fun nm => VSym (TPar nm)) (tmpl_names p (Z.to_nat r) (Z.to_nat c)))) (s_env s))
@@ -379,6 +403,7 @@ Lemma arr_template_inv s ty x shape p s' :
   arr_template s ty x shape p = Ok s' -> arr_result s ty x shape [[EPar p]] s'.
 Proof.
   unfold arr_template. intro H.
+  destruct (mem_str p (s_pars s)) eqn:M; [discriminate|]. apply mem_str_false in M.
   destruct shape as [sh|]; [|discriminate].
   destruct (shape_vals sh) as [[|r [|c [|]]]|] eqn:SV; try discriminate.
   destruct (Z.leb r 64 && Z.leb c 64)%bool eqn:B; [|discriminate].
@@ -533,21 +558,96 @@ Proof.
   repeat split; auto. discriminate.
 Qed.
 
-(* what instantiation does to one argument value *)
-Definition inst_rel (sg:list (str * term)) (v v':value) : Prop :=
-  match v with
-  | VSym t => all_in (term_pars t) (map fst sg) = true /\ v' = VFlt (subst_term sg t)
-  | _ => v' = v
-  end.
+(* instantiation descends into keyword lists and arrays: induction on values through their element lists *)
+Definition value_children (v:value) : list value :=
+  match v with VArr _ _ _ es => es | VList es => es | _ => [] end.
+
+Fixpoint value_ind_nested (P:value -> Prop) (H:forall v, Forall P (value_children v) -> P v) (v:value) : P v :=
+  H v (match v as v0 return Forall P (value_children v0) with
+       | VArr _ _ _ es =>
+           (fix go (l:list value) : Forall P l :=
+              match l with
+              | [] => @Forall_nil _ P
+              | x :: l' => @Forall_cons _ P x l' (@value_ind_nested P H x) (go l')
+              end) es
+       | VList es =>
+           (fix go (l:list value) : Forall P l :=
+              match l with
+              | [] => @Forall_nil _ P
+              | x :: l' => @Forall_cons _ P x l' (@value_ind_nested P H x) (go l')
+              end) es
+       | _ => @Forall_nil _ P
+       end).
+
+(* the inner fix of inst_value is mapM (inst_value sg) *)
+Lemma inst_value_list sg l :
+  (fix go (l:list value) : outcome (list value) :=
+     match l with
+     | [] => Ok []
+     | x :: l' => do y <- inst_value sg x; do ys <- go l'; Ok (y :: ys)
+     end) l = mapM (inst_value sg) l.
+Proof. induction l as [|x l IH]; [reflexivity|]. cbn [mapM]. rewrite <- IH. reflexivity. Qed.
+
+Lemma inst_value_VList sg l : inst_value sg (VList l) = do l' <- mapM (inst_value sg) l; Ok (VList l').
+Proof. rewrite <- inst_value_list. reflexivity. Qed.
+
+Lemma inst_value_VArr sg k r c es :
+  inst_value sg (VArr k r c es) = do es' <- mapM (inst_value sg) es; Ok (VArr k r c es').
+Proof. rewrite <- inst_value_list. reflexivity. Qed.
+
+Lemma inst_elem_eq sg v : inst_elem sg v = inst_value sg v.
+Proof. reflexivity. Qed.
+
+(* a relation on symbolic leaves lifted through keyword lists and arrays; every other value is unchanged
+   (in particular register transforms VTrf and numbers) *)
+Definition is_leaf (v:value) : Prop :=
+  match v with VSym _ | VList _ | VArr _ _ _ _ => False | _ => True end.
+
+Inductive lift_rel (S:term -> value -> Prop) : value -> value -> Prop :=
+| LR_sym t v' : S t v' -> lift_rel S (VSym t) v'
+| LR_list l l' : Forall2 (lift_rel S) l l' -> lift_rel S (VList l) (VList l')
+| LR_arr k r c es es' : Forall2 (lift_rel S) es es' -> lift_rel S (VArr k r c es) (VArr k r c es')
+| LR_leaf v : is_leaf v -> lift_rel S v v.
+
+Lemma lift_rel_impl (S1 S2:term -> value -> Prop) :
+  (forall t v', S1 t v' -> S2 t v') -> forall v v', lift_rel S1 v v' -> lift_rel S2 v v'.
+Proof.
+  intro HS. apply (@value_ind_nested (fun v => forall v', lift_rel S1 v v' -> lift_rel S2 v v')).
+  intros v IH v' H. rewrite Forall_forall in IH. inversion H; subst; simpl in IH.
+  - apply LR_sym; auto.
+  - apply LR_list. eapply Forall2_imp_In; [|eassumption]. intros a b Ha Hab. apply IH; auto.
+  - apply LR_arr. eapply Forall2_imp_In; [|eassumption]. intros a b Ha Hab. apply IH; auto.
+  - apply LR_leaf; auto.
+Qed.
+
+(* what instantiation does to one argument value: every symbolic leaf VSym t, at any depth, becomes the number
+   obtained by substitution, provided all its parameters have a value *)
+Definition inst_rel (sg:list (str * term)) : value -> value -> Prop :=
+  lift_rel (fun t v' => all_in (term_pars t) (map fst sg) = true /\ v' = VFlt (subst_term sg t)).
 
 Lemma inst_value_rel sg v v' : inst_value sg v = Ok v' <-> inst_rel sg v v'.
 Proof.
-  destruct v; simpl; try (split; intro H; [inversion H; reflexivity|subst; reflexivity]).
-  destruct (all_in (term_pars t) (map fst sg)); split; intro H.
-  - inversion H; auto.
-  - destruct H as [_ ->]; reflexivity.
-  - discriminate.
-  - destruct H; discriminate.
+  revert v v'. apply (@value_ind_nested (fun v => forall v', inst_value sg v = Ok v' <-> inst_rel sg v v')).
+  intros v IH v'. rewrite Forall_forall in IH.
+  destruct v; simpl in IH;
+    try (simpl; split; intro H; [inversion H; subst; apply LR_leaf; exact I|inversion H; subst; reflexivity]).
+  - (* VSym *) simpl. destruct (all_in (term_pars t) (map fst sg)) eqn:A; split; intro H.
+    + inversion H; subst. apply LR_sym; auto.
+    + inversion H; subst; [|contradiction]. destruct H1 as [_ ->]. reflexivity.
+    + discriminate.
+    + inversion H; subst; [|contradiction]. destruct H1; congruence.
+  - (* VArr *) rewrite inst_value_VArr. split; intro H.
+    + binv H. inversion H; subst. apply LR_arr. apply mapM_Forall2 in E.
+      eapply Forall2_imp_In; [|exact E]. intros a b Ha Hab. apply IH; auto.
+    + inversion H; subst; [|contradiction].
+      erewrite Forall2_mapM; [reflexivity|].
+      eapply Forall2_imp_In; [|eassumption]. intros a b Ha Hab. apply IH; auto.
+  - (* VList *) rewrite inst_value_VList. split; intro H.
+    + binv H. inversion H; subst. apply LR_list. apply mapM_Forall2 in E.
+      eapply Forall2_imp_In; [|exact E]. intros a b Ha Hab. apply IH; auto.
+    + inversion H; subst; [|contradiction].
+      erewrite Forall2_mapM; [reflexivity|].
+      eapply Forall2_imp_In; [|eassumption]. intros a b Ha Hab. apply IH; auto.
 Qed.
 
 Definition inst_op_rel (R:value -> value -> Prop) (o o':op) : Prop :=
@@ -565,7 +665,7 @@ Proof.
   - binv H. binv H. inversion H; subst; simpl. repeat split; auto.
     exists x, x0. repeat split; auto.
     + apply mapM_Forall2 in E. eapply Forall2_imp; [|exact E]. intros a b Hab. apply inst_value_rel; auto.
-    + apply mapM_Forall2 in E0. eapply Forall2_imp; [|exact E0]. intros a b Hab. simpl in Hab.
+    + apply mapM_Forall2 in E0. eapply Forall2_imp; [|exact E0]. intros a b Hab. cbv beta in Hab.
       binv Hab. inversion Hab; subst; simpl. split; auto. apply inst_value_rel; auto.
   - inversion H; subst. rewrite A. auto.
 Qed.
@@ -592,17 +692,14 @@ Proof.
   rewrite L. eauto.
 Qed.
 
-(* the relation once the substituted values are parameter-free: a symbolic argument becomes a closed number *)
-Definition inst_rel_closed (sg:list (str * term)) (v v':value) : Prop :=
-  match v with
-  | VSym t => v' = VFlt (subst_term sg t) /\ term_pars (subst_term sg t) = []
-  | _ => v' = v
-  end.
+(* the relation once the substituted values are parameter-free: a symbolic leaf, at any depth, becomes a closed number *)
+Definition inst_rel_closed (sg:list (str * term)) : value -> value -> Prop :=
+  lift_rel (fun t v' => v' = VFlt (subst_term sg t) /\ term_pars (subst_term sg t) = []).
 
 Lemma inst_rel_to_closed sg v v' :
   (forall k u, In (k, u) sg -> term_pars u = []) -> inst_rel sg v v' -> inst_rel_closed sg v v'.
 Proof.
-  intro Hsg. destruct v; simpl; auto. intros [H1 H2]. split; auto. apply subst_term_closed; auto.
+  intro Hsg. apply lift_rel_impl. intros t w [H1 H2]. split; auto. apply subst_term_closed; auto.
 Qed.
 
 Lemma inst_op_rel_impl (R1 R2:value -> value -> Prop) o o' :
@@ -622,7 +719,18 @@ Proof.
   apply mapM_Forall2 in H. eapply Forall2_imp; [|exact H]. intros; apply inst_op_ok; auto.
 Qed.
 
-(* instantiation with parameter-free values leaves no parameter in any (formerly symbolic) argument *)
+(* the variables of the program are instantiated in the same way (arrays element by element) *)
+Theorem inst_vars_rel sg p q :
+  instantiate sg p = Ok q ->
+  Forall2 (fun kv kv' => fst kv' = fst kv /\ inst_rel sg (snd kv) (snd kv')) (p_vars p) (p_vars q).
+Proof.
+  intro H. apply instantiate_inv in H. destruct H as (_ & _ & H & _).
+  apply mapM_Forall2 in H. eapply Forall2_imp; [|exact H]. intros a b Hab. cbv beta in Hab.
+  rewrite inst_elem_eq in Hab. binv Hab. inversion Hab; subst; simpl. split; auto. apply inst_value_rel; auto.
+Qed.
+
+(* instantiation with parameter-free values leaves no parameter in any (formerly symbolic) argument, at any depth
+   of a keyword list or an array *)
 Theorem inst_args_closed sg p q :
   (forall k u, In (k, u) sg -> term_pars u = []) ->
   instantiate sg p = Ok q -> Forall2 (inst_op_rel (inst_rel_closed sg)) (p_ops p) (p_ops q).
@@ -631,16 +739,130 @@ Proof.
   intros a b. apply inst_op_rel_impl. intros; apply inst_rel_to_closed; auto.
 Qed.
 
+(* parameters of a value: those inside its numbers (real and complex values) and, when [sym], those of its
+   symbolic leaves and register transforms.
+     value_pars = every parameter;  num_pars = parameters inside numbers (the evaluator never puts a parameter
+     there, a value mentioning a parameter is symbolic: see num_pars_invariant);
+     value_pars_nt = parameters outside register transforms *)
+Fixpoint vpars (sym:bool) (v:value) : list str :=
+  match v with
+  | VFlt t | VCpx t => term_pars t
+  | VSym t | VTrf t => if sym then term_pars t else []
+  | VArr _ _ _ es => flat_map (vpars sym) es
+  | VList es => flat_map (vpars sym) es
+  | _ => []
+  end.
+Notation value_pars := (vpars true).
+Notation num_pars := (vpars false).
+
+Definition opars (sym:bool) (o:op) : list str :=
+  match oargs o with
+  | Some (ps, kws) => flat_map (vpars sym) ps ++ flat_map (fun kv => vpars sym (snd kv)) kws
+  | None => []
+  end.
+Notation op_pars := (opars true).
+Notation op_num_pars := (opars false).
+
+Fixpoint value_pars_nt (v:value) : list str :=
+  match v with
+  | VFlt t | VCpx t | VSym t => term_pars t
+  | VArr _ _ _ es => flat_map value_pars_nt es
+  | VList es => flat_map value_pars_nt es
+  | _ => []
+  end.
+
+Definition value_pars_free (v:value) : Prop := value_pars_nt v = [].
+
+Definition op_pars_nt (o:op) : list str :=
+  match oargs o with
+  | Some (ps, kws) => flat_map value_pars_nt ps ++ flat_map (fun kv => value_pars_nt (snd kv)) kws
+  | None => []
+  end.
+
+Lemma no_In_nil A (l:list A) : (forall x, ~ In x l) -> l = [].
+Proof. destruct l; auto. intro H. exfalso. apply (H a). left; reflexivity. Qed.
+
+(* after instantiation with parameter-free values, a parameter outside a register transform can only be one that
+   was already inside a number *)
+Lemma inst_rel_closed_pars sg v v' :
+  inst_rel_closed sg v v' -> forall p, In p (value_pars_nt v') -> In p (num_pars v).
+Proof.
+  revert v v'.
+  apply (@value_ind_nested (fun v => forall v', inst_rel_closed sg v v' ->
+                                      forall p, In p (value_pars_nt v') -> In p (num_pars v))).
+  intros v IH v' H p Hp. rewrite Forall_forall in IH. inversion H; subst; simpl in IH.
+  - destruct H0 as [-> H0]. simpl in Hp. rewrite H0 in Hp. contradiction.
+  - simpl in Hp |- *. apply in_flat_map in Hp. destruct Hp as (y & Hy & Hp).
+    destruct (Forall2_In_r H0 Hy) as (x & Hx & Hxy). apply in_flat_map. exists x. split; auto. eapply IH; eauto.
+  - simpl in Hp |- *. apply in_flat_map in Hp. destruct Hp as (y & Hy & Hp).
+    destruct (Forall2_In_r H0 Hy) as (x & Hx & Hxy). apply in_flat_map. exists x. split; auto. eapply IH; eauto.
+  - destruct v'; simpl in *; auto; contradiction.
+Qed.
+
+Theorem inst_value_pars_free sg v v' :
+  (forall k u, In (k, u) sg -> term_pars u = []) ->
+  inst_value sg v = Ok v' -> num_pars v = [] -> value_pars_free v'.
+Proof.
+  intros Hsg H Hn. apply no_In_nil. intros p Hp.
+  apply inst_value_rel in H. apply (inst_rel_to_closed Hsg) in H.
+  apply (inst_rel_closed_pars H) in Hp. rewrite Hn in Hp. contradiction.
+Qed.
+
+Lemma inst_op_rel_closed_pars sg o o' :
+  inst_op_rel (inst_rel_closed sg) o o' -> forall p, In p (op_pars_nt o') -> In p (op_num_pars o).
+Proof.
+  intros (_ & _ & H) p Hp. unfold op_pars_nt in Hp. unfold opars.
+  destruct (oargs o) as [[ps kws]|].
+  - destruct H as (ps' & kws' & A & F1 & F2). rewrite A in Hp.
+    apply in_app_or in Hp. apply in_or_app. destruct Hp as [Hp|Hp]; [left|right].
+    + apply in_flat_map in Hp. destruct Hp as (y & Hy & Hp).
+      destruct (Forall2_In_r F1 Hy) as (x & Hx & Hxy). apply in_flat_map. exists x. split; auto.
+      eapply inst_rel_closed_pars; eauto.
+    + apply in_flat_map in Hp. destruct Hp as (y & Hy & Hp).
+      destruct (Forall2_In_r F2 Hy) as (x & Hx & _ & Hxy). apply in_flat_map. exists x. split; auto.
+      eapply inst_rel_closed_pars; eauto.
+  - rewrite H in Hp. contradiction.
+Qed.
+
+(* the operations and variables of an instantiated program mention no parameter outside register transforms *)
+Theorem inst_ops_pars_free sg p q :
+  (forall k u, In (k, u) sg -> term_pars u = []) ->
+  instantiate sg p = Ok q ->
+  (forall o, In o (p_ops p) -> op_num_pars o = []) ->
+  forall o', In o' (p_ops q) -> op_pars_nt o' = [].
+Proof.
+  intros Hsg H Hn o' Ho'. apply no_In_nil. intros x Hx.
+  pose proof (inst_args_closed Hsg H) as F.
+  destruct (Forall2_In_r F Ho') as (o & Ho & R).
+  apply (inst_op_rel_closed_pars R) in Hx. rewrite (Hn _ Ho) in Hx. contradiction.
+Qed.
+
+Theorem inst_vars_pars_free sg p q :
+  (forall k u, In (k, u) sg -> term_pars u = []) ->
+  instantiate sg p = Ok q ->
+  (forall x v, In (x, v) (p_vars p) -> num_pars v = []) ->
+  forall x v', In (x, v') (p_vars q) -> value_pars_free v'.
+Proof.
+  intros Hsg H Hn x v' Hin. apply no_In_nil. intros y Hy.
+  pose proof (inst_vars_rel H) as F.
+  destruct (Forall2_In_r F Hin) as ([x0 v] & Hv & Hk & R). simpl in Hk, R. subst x0.
+  apply (inst_rel_to_closed Hsg) in R. apply (inst_rel_closed_pars R) in Hy.
+  rewrite (Hn _ _ Hv) in Hy. contradiction.
+Qed.
+
 (* refusals: every step either succeeds or is refused with the one class *)
 Definition ok_or A (c:errclass) (o:outcome A) : Prop := (exists a, o = Ok a) \/ o = Refuse c.
 
-Lemma mapM_ok_or A B (f:A -> outcome B) c l : (forall x, ok_or c (f x)) -> ok_or c (mapM f l).
+Lemma mapM_ok_or_In A B (f:A -> outcome B) c l : (forall x, In x l -> ok_or c (f x)) -> ok_or c (mapM f l).
 Proof.
-  intro Hf. induction l as [|a l IH]; simpl.
+  induction l as [|a l IH]; simpl; intro Hf.
   - left; eauto.
-  - destruct (Hf a) as [[b ->]| ->]; simpl; [|right; reflexivity].
-    destruct IH as [[bs ->]| ->]; simpl; [left; eauto|right; reflexivity].
+  - destruct (Hf a (or_introl eq_refl)) as [[b ->]| ->]; simpl; [|right; reflexivity].
+    destruct IH as [[bs ->]| ->]; simpl; [auto|left; eauto|right; reflexivity].
 Qed.
+
+Lemma mapM_ok_or A B (f:A -> outcome B) c l : (forall x, ok_or c (f x)) -> ok_or c (mapM f l).
+Proof. intro Hf. apply mapM_ok_or_In. auto. Qed.
 
 Lemma mapM_refuse A B (f:A -> outcome B) c l x :
   (forall x, ok_or c (f x)) -> In x l -> f x = Refuse c -> mapM f l = Refuse c.
@@ -653,8 +875,12 @@ Qed.
 
 Lemma inst_value_ok_or sg v : ok_or EMissingParam (inst_value sg v).
 Proof.
-  destruct v; simpl; try (left; eauto; fail).
-  destruct (all_in (term_pars t) (map fst sg)); [left; eauto|right; reflexivity].
+  revert v. apply (@value_ind_nested (fun v => ok_or EMissingParam (inst_value sg v))).
+  intros v IH. rewrite Forall_forall in IH.
+  destruct v; simpl in IH; try (left; simpl; eauto; fail).
+  - simpl. destruct (all_in (term_pars t) (map fst sg)); [left; eauto|right; reflexivity].
+  - rewrite inst_value_VArr. destruct (mapM_ok_or_In IH) as [[b ->]| ->]; simpl; [left; eauto|right; reflexivity].
+  - rewrite inst_value_VList. destruct (mapM_ok_or_In IH) as [[b ->]| ->]; simpl; [left; eauto|right; reflexivity].
 Qed.
 
 Lemma inst_kw_ok_or sg (kv:str * value) :
@@ -668,31 +894,43 @@ Proof.
   destruct (mapM_ok_or kws (inst_kw_ok_or sg)) as [[kws' ->]| ->]; simpl; [left; eauto|right; reflexivity].
 Qed.
 
-Lemma inst_value_missing sg t p :
-  In p (term_pars t) -> lookup p sg = None -> inst_value sg (VSym t) = Refuse EMissingParam.
+(* the symbolic leaf VSym t occurs in a value (at any depth of a keyword list or an array) *)
+Inductive sym_in (t:term) : value -> Prop :=
+| SI_here : sym_in t (VSym t)
+| SI_list l v : In v l -> sym_in t v -> sym_in t (VList l)
+| SI_arr k r c es v : In v es -> sym_in t v -> sym_in t (VArr k r c es).
+
+Lemma inst_value_missing sg t p v :
+  sym_in t v -> In p (term_pars t) -> lookup p sg = None -> inst_value sg v = Refuse EMissingParam.
 Proof.
-  intros HI L. simpl. destruct (all_in (term_pars t) (map fst sg)) eqn:A; [|reflexivity].
-  unfold all_in in A. rewrite forallb_forall in A. apply A in HI. apply mem_str_In in HI.
-  apply lookup_None in L. contradiction.
+  intros Hs HI L. induction Hs as [|l v Hv Hs IH|k r c es v Hv Hs IH].
+  - simpl. destruct (all_in (term_pars t) (map fst sg)) eqn:A; [|reflexivity].
+    unfold all_in in A. rewrite forallb_forall in A. apply A in HI. apply mem_str_In in HI.
+    apply lookup_None in L. contradiction.
+  - rewrite inst_value_VList. rewrite (mapM_refuse (inst_value_ok_or sg) Hv IH). reflexivity.
+  - rewrite inst_value_VArr. rewrite (mapM_refuse (inst_value_ok_or sg) Hv IH). reflexivity.
 Qed.
 
 Theorem inst_op_missing sg o ps kws t p :
   In p (term_pars t) -> lookup p sg = None ->
-  oargs o = Some (ps, kws) -> (In (VSym t) ps \/ exists k, In (k, VSym t) kws) ->
+  oargs o = Some (ps, kws) ->
+  ((exists v, In v ps /\ sym_in t v) \/ exists k v, In (k, v) kws /\ sym_in t v) ->
   inst_op sg o = Refuse EMissingParam.
 Proof.
   intros HI L A Hin. unfold inst_op. rewrite A.
-  destruct Hin as [Hin|[k Hin]].
-  - rewrite (mapM_refuse (inst_value_ok_or sg) Hin (inst_value_missing HI L)). reflexivity.
+  destruct Hin as [(v & Hin & Hs)|(k & v & Hin & Hs)].
+  - rewrite (mapM_refuse (inst_value_ok_or sg) Hin (inst_value_missing Hs HI L)). reflexivity.
   - destruct (mapM_ok_or ps (inst_value_ok_or sg)) as [[ps' ->]| ->]; simpl; [|reflexivity].
     rewrite (mapM_refuse (inst_kw_ok_or sg) Hin); [reflexivity|].
-    cbv beta. cbn [snd fst]. rewrite (inst_value_missing HI L). reflexivity.
+    cbv beta. cbn [snd fst]. rewrite (inst_value_missing Hs HI L). reflexivity.
 Qed.
 
-(* a symbolic argument mentioning a parameter without a value: the instantiation is refused *)
+(* a symbolic argument (or a symbolic element of a keyword list or of an array argument) mentioning a parameter
+   without a value: the instantiation is refused *)
 Theorem inst_missing_refused sg prog o ps kws t p :
   p_params prog <> [] ->
-  In o (p_ops prog) -> oargs o = Some (ps, kws) -> (In (VSym t) ps \/ exists k, In (k, VSym t) kws) ->
+  In o (p_ops prog) -> oargs o = Some (ps, kws) ->
+  ((exists v, In v ps /\ sym_in t v) \/ exists k v, In (k, v) kws /\ sym_in t v) ->
   In p (term_pars t) -> lookup p sg = None ->
   instantiate sg prog = Refuse EMissingParam.
 Proof.
@@ -914,21 +1152,6 @@ Qed.
 
 (* general shape of a successful expansion: the source operations are those of the included program (instantiated
    when it is a template: same names and modes), each with its modes looked up in the renaming *)
-Lemma Forall2_In_l A B (R:A -> B -> Prop) l l' x : Forall2 R l l' -> In x l -> exists y, In y l' /\ R x y.
-Proof.
-  induction 1; simpl; intros HI; [contradiction|]. destruct HI as [->|HI]; eauto.
-  destruct (IHForall2 HI) as [y0 [? ?]]; eauto.
-Qed.
-
-Lemma Forall2_In_r A B (R:A -> B -> Prop) l l' y : Forall2 R l l' -> In y l' -> exists x, In x l /\ R x y.
-Proof.
-  induction 1; simpl; intros HI; [contradiction|]. destruct HI as [->|HI]; eauto.
-  destruct (IHForall2 HI) as [x0 [? ?]]; eauto.
-Qed.
-
-Lemma Forall2_refl_In A (R:A -> A -> Prop) l : (forall x, In x l -> R x x) -> Forall2 R l l.
-Proof. induction l; constructor; simpl in *; auto. Qed.
-
 Lemma expand_include_inv inc o body :
   expand_include inc o = Ok body ->
   length (sortZ (p_modes inc)) = length (omodes o) /\
@@ -1185,20 +1408,6 @@ Proof. destruct o1, o2; simpl; intros; subst; reflexivity. Qed.
 (* ================================================================== *)
 (* C04.5  every parameter occurring in the program is a registered parameter *)
 (* ================================================================== *)
-Fixpoint value_pars (v:value) : list str :=
-  match v with
-  | VFlt t | VCpx t | VSym t | VTrf t => term_pars t
-  | VArr _ _ _ es => flat_map value_pars es
-  | VList es => flat_map value_pars es
-  | _ => []
-  end.
-
-Definition op_pars (o:op) : list str :=
-  match oargs o with
-  | Some (ps, kws) => flat_map value_pars ps ++ flat_map (fun kv => value_pars (snd kv)) kws
-  | None => []
-  end.
-
 Definition term_closed_in (ps:list str) (t:term) : Prop := forall p, In p (term_pars t) -> In p ps.
 Definition value_closed_in (ps:list str) (v:value) : Prop := forall p, In p (value_pars v) -> In p ps.
 Definition op_closed_in (ps:list str) (o:op) : Prop := forall p, In p (op_pars o) -> In p ps.
@@ -1210,7 +1419,7 @@ Definition st_closed (s:st) : Prop :=
 Ltac binv_as H x :=
   let E := fresh "E" in apply bind_ok in H; destruct H as [x [E H]].
 
-Lemma mkint_pars z v : mkint z = Ok v -> value_pars v = [].
+Lemma mkint_pars z v : mkint z = Ok v -> forall sym, vpars sym v = [].
 Proof. unfold mkint. destruct (int64_ok z); intro H; inversion H; reflexivity. Qed.
 
 Definition cpx_body (neg1:bool) (s1:str) : option term :=
@@ -1257,10 +1466,10 @@ Qed.
 Lemma parse_complex_pars s t : parse_complex s = Some t -> term_pars t = [].
 Proof. rewrite parse_complex_eq, let_pair. apply cpx_body_pars. Qed.
 
-Lemma num_value_pars k text v : num_value k text = Ok v -> value_pars v = [].
+Lemma num_value_pars sym k text v : num_value k text = Ok v -> vpars sym v = [].
 Proof.
   destruct k; simpl.
-  - destruct (parse_digits text); [apply mkint_pars|discriminate].
+  - destruct (parse_digits text); [intro H; apply (mkint_pars H)|discriminate].
   - unfold parse_float. destruct (parse_real_prefix text) as [[[m e] r]|]; [|discriminate].
     destruct r; [|discriminate]. intro H; inversion H; reflexivity.
   - destruct (parse_complex text) eqn:P; [|discriminate]. intro H; inversion H; subst. simpl.
@@ -1270,95 +1479,108 @@ Qed.
 
 Ltac arith_fin H Hp :=
   simpl in H; try discriminate;
-  try (apply mkint_pars in H; rewrite H in Hp; contradiction);
+  try (rewrite (mkint_pars H) in Hp; contradiction);
   inversion H; subst; simpl in Hp; simpl;
   try contradiction; try (apply in_app_or in Hp); tauto.
 
-Lemma v_neg_pars a v p : v_neg a = Ok v -> In p (value_pars v) -> In p (value_pars a).
-Proof. intros H Hp. destruct a; arith_fin H Hp. Qed.
+Lemma v_neg_pars sym a v p : v_neg a = Ok v -> In p (vpars sym v) -> In p (vpars sym a).
+Proof. intros H Hp. destruct sym; destruct a; arith_fin H Hp. Qed.
 
-Lemma v_add_pars sub a b v p :
-  v_add sub a b = Ok v -> In p (value_pars v) -> In p (value_pars a) \/ In p (value_pars b).
-Proof. intros H Hp. destruct sub; destruct a, b; arith_fin H Hp. Qed.
+Lemma v_add_pars sym sub a b v p :
+  v_add sub a b = Ok v -> In p (vpars sym v) -> In p (vpars sym a) \/ In p (vpars sym b).
+Proof. intros H Hp. destruct sym; destruct sub; destruct a, b; arith_fin H Hp. Qed.
 
-Lemma v_mul_pars a b v p :
-  v_mul a b = Ok v -> In p (value_pars v) -> In p (value_pars a) \/ In p (value_pars b).
-Proof. intros H Hp. destruct a, b; arith_fin H Hp. Qed.
+Lemma v_mul_pars sym a b v p :
+  v_mul a b = Ok v -> In p (vpars sym v) -> In p (vpars sym a) \/ In p (vpars sym b).
+Proof. intros H Hp. destruct sym; destruct a, b; arith_fin H Hp. Qed.
 
-Lemma v_div_pars a b v p :
-  v_div a b = Ok v -> In p (value_pars v) -> In p (value_pars a) \/ In p (value_pars b).
-Proof. intros H Hp. destruct b as [[| |]| | | | | | | | |]; destruct a; arith_fin H Hp. Qed.
+Lemma v_div_pars sym a b v p :
+  v_div a b = Ok v -> In p (vpars sym v) -> In p (vpars sym a) \/ In p (vpars sym b).
+Proof. intros H Hp. destruct sym; destruct b as [[| |]| | | | | | | | |]; destruct a; arith_fin H Hp. Qed.
 
-Lemma v_pow_pars a b v p :
-  v_pow a b = Ok v -> In p (value_pars v) -> In p (value_pars a) \/ In p (value_pars b).
+Lemma v_pow_pars sym a b v p :
+  v_pow a b = Ok v -> In p (vpars sym v) -> In p (vpars sym a) \/ In p (vpars sym b).
 Proof.
-  intros H Hp. destruct a as [x| | | | | | | | |], b as [y| | | | | | | | |]; try (arith_fin H Hp).
+  intros H Hp. destruct a as [x| | | | | | | | |], b as [y| | | | | | | | |]; try (destruct sym; arith_fin H Hp).
   simpl in H. destruct (Z.leb 0 y).
-  - destruct (Z.leb y 4096); [|discriminate]. apply mkint_pars in H. rewrite H in Hp. contradiction.
+  - destruct (Z.leb y 4096); [|discriminate]. rewrite (mkint_pars H) in Hp. contradiction.
   - destruct (Z.eqb x 0); [discriminate|]. inversion H; subst. simpl in Hp. contradiction.
 Qed.
 
-Lemma v_fn_pars f a v p : v_fn f a = Ok v -> In p (value_pars v) -> In p (value_pars a).
-Proof. intros H Hp. destruct a; arith_fin H Hp. Qed.
+Lemma v_fn_pars sym f a v p : v_fn f a = Ok v -> In p (vpars sym v) -> In p (vpars sym a).
+Proof. intros H Hp. destruct sym; destruct a; arith_fin H Hp. Qed.
 
-Lemma cast_scalar_pars ty v v' p : cast_scalar ty v = Ok v' -> In p (value_pars v') -> In p (value_pars v).
-Proof. intros H Hp. destruct ty, v; arith_fin H Hp. Qed.
+Lemma cast_scalar_pars sym ty v v' p : cast_scalar ty v = Ok v' -> In p (vpars sym v') -> In p (vpars sym v).
+Proof. intros H Hp. destruct sym; destruct ty, v; arith_fin H Hp. Qed.
 
-Lemma cast_elem_pars ty v v' p : cast_elem ty v = Ok v' -> In p (value_pars v') -> In p (value_pars v).
-Proof. intros H Hp. destruct ty, v; arith_fin H Hp. Qed.
+Lemma cast_elem_pars sym ty v v' p : cast_elem ty v = Ok v' -> In p (vpars sym v') -> In p (vpars sym v).
+Proof. intros H Hp. destruct sym; destruct ty, v; arith_fin H Hp. Qed.
 
-Lemma cast_loop_pars ty v v' p : cast_loop ty v = Ok v' -> In p (value_pars v') -> In p (value_pars v).
+Lemma cast_loop_pars sym ty v v' p : cast_loop ty v = Ok v' -> In p (vpars sym v') -> In p (vpars sym v).
 Proof.
-  intros H Hp. destruct ty, v; try (arith_fin H Hp).
+  intros H Hp. destruct ty, v; try (destruct sym; arith_fin H Hp).
   - (* VTInt, VFlt *) simpl in H. destruct t; try discriminate.
     destruct (dec_int m e); [|destruct (dec_nonint m e); discriminate].
-    apply mkint_pars in H. rewrite H in Hp. contradiction.
+    rewrite (mkint_pars H) in Hp. contradiction.
   - (* VTBool, VInt *) simpl in H. destruct z as [|[q|q|]|q]; try discriminate; inversion H; subst; contradiction.
 Qed.
 
-Lemma wrap_transform_pars v : value_pars (wrap_transform v) = value_pars v.
+Lemma wrap_transform_pars sym v : vpars sym (wrap_transform v) = vpars sym v.
 Proof. destruct v; simpl; auto. destruct (has_reg t); reflexivity. Qed.
+
+(* [Qin sym ps p]: p is one of the registered parameters ps when every parameter is counted (sym = true);
+   impossible when only parameters inside numbers are counted (sym = false: there is none at all) *)
+Definition Qin (sym:bool) (ps:list str) (p:str) : Prop := if sym then In p ps else False.
+
+Lemma Qin_mono sym ps ps' p : (forall q, In q ps -> In q ps') -> Qin sym ps p -> Qin sym ps' p.
+Proof. destruct sym; simpl; auto. Qed.
+
+Lemma Qin_intro sym ps p : sym = true -> In p ps -> Qin sym ps p.
+Proof. intros ->; auto. Qed.
 
 Section EvalPars.
 Variable env : list (str * value).
 Variable pn : list str.
+Variable sym : bool.
 Variable Q : str -> Prop.
-Hypothesis env_ok : forall x w, In (x, w) env -> forall p, In p (value_pars w) -> Q p.
+Hypothesis env_ok : forall x w, In (x, w) env -> forall p, In p (vpars sym w) -> Q p.
 
-(* evaluation introduces only parameters written in the expression or already present in the environment *)
+(* evaluation introduces only parameters written in the expression or already present in the environment; the
+   written parameters end up in symbolic values only (with sym = false nothing is assumed about them) *)
 Lemma eval_pars e : forall v,
-  (forall p, In p (expr_pars e) -> Q p) -> eval env pn e = Ok v -> forall p, In p (value_pars v) -> Q p.
+  (sym = true -> forall p, In p (expr_pars e) -> Q p) -> eval env pn e = Ok v -> forall p, In p (vpars sym v) -> Q p.
 Proof.
   induction e as [k text|x l c|text|x l c ie IH|q|a IH|neg a IH|a IHa b IHb|dv a IHa b IHb|sub a IHa b IHb|f a IH];
     intros v He H p Hp; simpl in H.
-  - apply num_value_pars in H. rewrite H in Hp. contradiction.
+  - rewrite (num_value_pars sym H) in Hp. contradiction.
   - destruct (lookup x env) as [w|] eqn:L; [|discriminate]. apply lookup_In in L.
     destruct (mem_str x pn).
     + destruct w; try discriminate. inversion H; subst. contradiction.
     + inversion H; subst. eauto.
-  - inversion H; subst. contradiction.
+  - inversion H; subst. simpl in Hp. destruct sym; contradiction.
   - binv_as H iv. destruct (lookup x env) as [w|] eqn:L; [|discriminate]. apply lookup_In in L.
     destruct w; try discriminate. destruct iv as [z| | | | | | | | |]; try discriminate.
     destruct (Z.ltb z 0); [discriminate|].
     destruct (nth_error elems (Z.to_nat z)) eqn:N; [|discriminate]. inversion H; subst.
     apply nth_error_In in N. eapply env_ok; [exact L|]. simpl. apply in_flat_map. eauto.
-  - inversion H; subst. simpl in Hp. destruct Hp as [<-|[]]. apply He. simpl. auto.
+  - inversion H; subst. simpl in Hp. destruct sym; [|contradiction]. destruct Hp as [<-|[]]. apply He; simpl; auto.
   - eapply IH; eauto.
   - simpl in He. destruct neg.
     + binv_as H w. eapply IH; eauto. eapply v_neg_pars; eauto.
     + eapply IH; eauto.
   - simpl in He. binv_as H va. binv_as H vb.
-    destruct (v_pow_pars H Hp); [eapply IHa|eapply IHb]; eauto; intros; apply He; apply in_or_app; auto.
+    destruct (v_pow_pars H Hp); [eapply IHa|eapply IHb]; eauto; intros Hs q Hq; apply (He Hs); apply in_or_app; auto.
   - simpl in He. destruct dv; binv_as H va; binv_as H vb.
-    + destruct (v_div_pars H Hp); [eapply IHa|eapply IHb]; eauto; intros; apply He; apply in_or_app; auto.
-    + destruct (v_mul_pars H Hp); [eapply IHa|eapply IHb]; eauto; intros; apply He; apply in_or_app; auto.
+    + destruct (v_div_pars H Hp); [eapply IHa|eapply IHb]; eauto; intros Hs q Hq; apply (He Hs); apply in_or_app; auto.
+    + destruct (v_mul_pars H Hp); [eapply IHa|eapply IHb]; eauto; intros Hs q Hq; apply (He Hs); apply in_or_app; auto.
   - simpl in He. binv_as H va. binv_as H vb.
-    destruct (v_add_pars H Hp); [eapply IHa|eapply IHb]; eauto; intros; apply He; apply in_or_app; auto.
+    destruct (v_add_pars H Hp); [eapply IHa|eapply IHb]; eauto; intros Hs q Hq; apply (He Hs); apply in_or_app; auto.
   - simpl in He. binv_as H va. eapply IH; eauto. eapply v_fn_pars; eauto.
 Qed.
 
 Lemma eval_val_pars w v :
-  (forall p, In p (val_pars w) -> Q p) -> eval_val env pn w = Ok v -> forall p, In p (value_pars v) -> Q p.
+  (sym = true -> forall p, In p (val_pars w) -> Q p) -> eval_val env pn w = Ok v ->
+  forall p, In p (vpars sym v) -> Q p.
 Proof.
   destruct w; simpl; intros Hw H p Hp.
   - eapply eval_pars; eauto.
@@ -1367,12 +1589,12 @@ Proof.
 Qed.
 
 Lemma mapM_eval_val_pars ws vs :
-  (forall p, In p (flat_map val_pars ws) -> Q p) -> mapM (eval_val env pn) ws = Ok vs ->
-  forall p, In p (flat_map value_pars vs) -> Q p.
+  (sym = true -> forall p, In p (flat_map val_pars ws) -> Q p) -> mapM (eval_val env pn) ws = Ok vs ->
+  forall p, In p (flat_map (vpars sym) vs) -> Q p.
 Proof.
   intros Hw H p Hp. apply in_flat_map in Hp. destruct Hp as (v & Hv & Hp).
   destruct (mapM_In H Hv) as (w & Hw' & E). eapply eval_val_pars; [|exact E|exact Hp].
-  intros q Hq. apply Hw. apply in_flat_map. eauto.
+  intros Hs q Hq. apply (Hw Hs). apply in_flat_map. eauto.
 Qed.
 
 Lemma kw_go_nil acc : kw_go env pn [] acc = Ok acc.
@@ -1388,48 +1610,48 @@ Lemma kw_go_kl_cons k v0 vs l acc :
 Proof. reflexivity. Qed.
 
 Lemma kw_go_pars l : forall acc r,
-  (forall p, In p (flat_map (fun kv => kwval_pars (snd kv)) l) -> Q p) ->
-  (forall k v, In (k, v) acc -> forall p, In p (value_pars v) -> Q p) ->
+  (sym = true -> forall p, In p (flat_map (fun kv => kwval_pars (snd kv)) l) -> Q p) ->
+  (forall k v, In (k, v) acc -> forall p, In p (vpars sym v) -> Q p) ->
   kw_go env pn l acc = Ok r ->
-  forall k v, In (k, v) r -> forall p, In p (value_pars v) -> Q p.
+  forall k v, In (k, v) r -> forall p, In p (vpars sym v) -> Q p.
 Proof.
   induction l as [|[k0 [w|[|w0 ws]]] l IH]; intros acc r Hl Hacc H.
   - rewrite kw_go_nil in H. inversion H; subst. exact Hacc.
   - rewrite kw_go_kv in H. binv_as H xv. eapply IH; [| |exact H].
-    + intros p Hp. apply Hl. simpl. apply in_or_app; auto.
+    + intros Hs p Hp. apply (Hl Hs). simpl. apply in_or_app; auto.
     + intros k v Hin p Hp. apply In_dict_set in Hin. destruct Hin as [Hin|Hin]; [|eauto].
       inversion Hin; subst. eapply eval_val_pars; [|exact E|exact Hp].
-      intros q Hq. apply Hl. simpl. apply in_or_app; auto.
+      intros Hs q Hq. apply (Hl Hs). simpl. apply in_or_app; auto.
   - rewrite kw_go_kl_nil in H. eapply IH; [| |exact H]; auto.
   - rewrite kw_go_kl_cons in H. binv_as H xs. eapply IH; [| |exact H].
-    + intros p Hp. apply Hl. simpl. apply in_or_app; right. exact Hp.
+    + intros Hs p Hp. apply (Hl Hs). simpl. apply in_or_app; right. exact Hp.
     + intros k v Hin p Hp. apply In_dict_set in Hin. destruct Hin as [Hin|Hin]; [|eauto].
       inversion Hin; subst. simpl in Hp. eapply mapM_eval_val_pars; [|exact E|exact Hp].
-      intros q Hq. apply Hl. cbn [flat_map snd kwval_pars]. apply in_or_app; left. exact Hq.
+      intros Hs q Hq. apply (Hl Hs). cbn [flat_map snd kwval_pars]. apply in_or_app; left. exact Hq.
 Qed.
 
 Lemma eval_args_pars a ps kws :
-  (forall p, In p (args_pars a) -> Q p) -> eval_args env pn a = Ok (ps, kws) ->
-  (forall p, In p (flat_map value_pars ps) -> Q p) /\
-  (forall k v, In (k, v) kws -> forall p, In p (value_pars v) -> Q p).
+  (sym = true -> forall p, In p (args_pars a) -> Q p) -> eval_args env pn a = Ok (ps, kws) ->
+  (forall p, In p (flat_map (vpars sym) ps) -> Q p) /\
+  (forall k v, In (k, v) kws -> forall p, In p (vpars sym v) -> Q p).
 Proof.
   intros Ha H. rewrite eval_args_eq in H. binv_as H ps'. binv_as H kws'. inversion H; subst.
   unfold args_pars in Ha. split.
-  - eapply mapM_eval_val_pars; [|exact E]. intros; apply Ha; apply in_or_app; auto.
+  - eapply mapM_eval_val_pars; [|exact E]. intros Hs q Hq; apply (Ha Hs); apply in_or_app; auto.
   - eapply kw_go_pars; [| |exact E0].
-    + intros; apply Ha; apply in_or_app; auto.
+    + intros Hs q Hq; apply (Ha Hs); apply in_or_app; auto.
     + intros k v [].
 Qed.
 
 Lemma eval_opt_args_pars a r :
-  (forall p, In p (match a with Some x => args_pars x | None => [] end) -> Q p) ->
+  (sym = true -> forall p, In p (match a with Some x => args_pars x | None => [] end) -> Q p) ->
   eval_opt_args env pn a = Ok r ->
-  forall nm ms p, In p (op_pars (mkop nm (wrap_args r) ms)) -> Q p.
+  forall nm ms p, In p (opars sym (mkop nm (wrap_args r) ms)) -> Q p.
 Proof.
   intros Ha H nm ms p Hp. destruct a as [a|]; simpl in H.
   - binv_as H r'. inversion H; subst. destruct r' as [ps kws].
     destruct (eval_args_pars Ha E) as [H1 H2].
-    unfold op_pars in Hp. simpl in Hp. apply in_app_or in Hp. destruct Hp as [Hp|Hp].
+    unfold opars in Hp. simpl in Hp. apply in_app_or in Hp. destruct Hp as [Hp|Hp].
     + apply in_flat_map in Hp. destruct Hp as (v & Hv & Hp). apply in_map_iff in Hv.
       destruct Hv as (v0 & <- & Hv0). rewrite wrap_transform_pars in Hp.
       apply H1. apply in_flat_map. eauto.
@@ -1439,38 +1661,46 @@ Proof.
 Qed.
 End EvalPars.
 
-Lemma st_closed_mono s s' :
-  st_closed s -> s_env s' = s_env s -> s_ops s' = s_ops s -> (forall p, In p (s_pars s) -> In p (s_pars s')) ->
-  st_closed s'.
+(* the state invariant, for both ways of counting: st_closed_g true is st_closed (every parameter occurring in the
+   environment or in an operation is registered); st_closed_g false says that no number contains a parameter *)
+Definition st_closed_g (sym:bool) (s:st) : Prop :=
+  (forall x v, In (x, v) (s_env s) -> forall p, In p (vpars sym v) -> Qin sym (s_pars s) p) /\
+  (forall o, In o (s_ops s) -> forall p, In p (opars sym o) -> Qin sym (s_pars s) p).
+
+Lemma st_closed_g_true s : st_closed_g true s <-> st_closed s.
+Proof. reflexivity. Qed.
+
+Lemma st_closed_mono sym s s' :
+  st_closed_g sym s -> s_env s' = s_env s -> s_ops s' = s_ops s -> (forall p, In p (s_pars s) -> In p (s_pars s')) ->
+  st_closed_g sym s'.
 Proof.
   intros [H1 H2] He Ho Hp. split.
-  - rewrite He. intros x v Hx p Hq. apply Hp. eapply H1; eauto.
-  - rewrite Ho. intros o Hin p Hq. apply Hp. eapply H2; eauto.
+  - rewrite He. intros x v Hx p Hq. eapply Qin_mono; [exact Hp|]. eapply H1; eauto.
+  - rewrite Ho. intros o Hin p Hq. eapply Qin_mono; [exact Hp|]. eapply H2; eauto.
 Qed.
+
+Ltac qmono := eapply Qin_mono; [intros ? ?; apply add_new_incl; eassumption|].
 
 Section Closed.
 Variable incs : list (str * prog).
 Variable tdm : bool.
+Variable sym : bool.
 
 Lemma exec_stmt_closed s t s' :
-  lookup (sop t) incs = None -> st_closed s -> exec_stmt incs s t = Ok s' ->
-  st_closed s' /\ (forall p, In p (s_pars s) -> In p (s_pars s')).
+  lookup (sop t) incs = None -> st_closed_g sym s -> exec_stmt incs s t = Ok s' ->
+  st_closed_g sym s' /\ (forall p, In p (s_pars s) -> In p (s_pars s')).
 Proof.
   intros L [H1 H2] H. apply exec_stmt_inv in H.
   destruct H as (mvs & ms & a & new & _ & _ & Ha & Hn & ->). rewrite L in Hn. subst new. simpl.
   split; [|intros; apply add_new_incl; auto]. split; simpl.
-  - intros x v Hx p Hp. apply add_new_incl. eapply H1; eauto.
+  - intros x v Hx p Hp. qmono. eapply H1; eauto.
   - intros o Ho. apply in_app_iff in Ho. destruct Ho as [Ho|[<-|[]]].
-    + intros p Hp. apply add_new_incl. eapply H2; eauto.
+    + intros p Hp. qmono. eapply H2; eauto.
     + intros p Hp.
-      eapply (eval_opt_args_pars (Q:=fun p => In p (add_new (s_pars s) (stmt_pars t)))); [| |exact Ha|exact Hp].
-      * intros x w Hx q Hq. apply add_new_incl. eapply H1; eauto.
-      * intros q Hq. apply add_new_In. right. unfold stmt_pars. apply in_or_app; auto.
+      eapply (eval_opt_args_pars (Q:=Qin sym (add_new (s_pars s) (stmt_pars t)))); [| |exact Ha|exact Hp].
+      * intros x w Hx q Hq. qmono. eapply H1; eauto.
+      * intros Hs q Hq. apply Qin_intro; auto. apply add_new_In. right. unfold stmt_pars. apply in_or_app; auto.
 Qed.
-
-Definition par_unused (p:str) (s:st) : Prop :=
-  (forall x v, In (x, v) (s_env s) -> ~ In p (value_pars v)) /\
-  (forall o, In o (s_ops s) -> ~ In p (op_pars o)).
 
 Lemma remove_first_keeps x l p : In p l -> p <> x -> In p (remove_first x l).
 Proof.
@@ -1479,83 +1709,91 @@ Proof.
   - destruct (str_eqb x y); simpl; auto.
 Qed.
 
+Lemma remove_first_notin x l : ~ In x l -> remove_first x l = l.
+Proof.
+  induction l as [|y l IH]; simpl; intro H; auto.
+  destruct (str_eqb x y) eqn:E; [apply str_eqb_eq in E; subst; exfalso; auto|]. rewrite IH; auto.
+Qed.
+
 Lemma arr_elem_pars s ty e v (Q:str -> Prop) :
-  (forall x w, In (x, w) (s_env s) -> forall p, In p (value_pars w) -> Q p) ->
-  (forall p, In p (expr_pars e) -> Q p) ->
+  (forall x w, In (x, w) (s_env s) -> forall p, In p (vpars sym w) -> Q p) ->
+  (sym = true -> forall p, In p (expr_pars e) -> Q p) ->
   match e with
   | EPar p => Ok (VSym (TPar p))
   | _ => do v <- eval (s_env s) (s_pnames s) e; cast_elem ty v
   end = Ok v ->
-  forall p, In p (value_pars v) -> Q p.
+  forall p, In p (vpars sym v) -> Q p.
 Proof.
   intros Henv He H p Hp.
   assert (G: (exists q, e = EPar q) \/ (do v <- eval (s_env s) (s_pnames s) e; cast_elem ty v) = Ok v).
   { destruct e; eauto. }
   destruct G as [[q ->]|G].
-  - inversion H; subst. simpl in Hp. destruct Hp as [<-|[]]. apply He. simpl; auto.
+  - inversion H; subst. simpl in Hp. destruct sym; [|contradiction]. destruct Hp as [<-|[]]. apply He; simpl; auto.
   - binv_as G w. eapply eval_pars; [exact Henv|exact He|exact E|]. eapply cast_elem_pars; eauto.
 Qed.
 
-(* an array template {p} replaces the registered parameter p by the generated names p_i_j: the invariant survives
-   exactly when p is not used elsewhere *)
-Theorem exec_item_closed s it s' :
+(* an array template {p} is only specified when p is not yet a registered parameter (otherwise the outcome is
+   Unspec): the generated names p_i_j are added and no registered parameter is removed, so the invariant survives
+   without any condition on the template (generated names that collide with registered parameters are simply not
+   added twice) *)
+Lemma exec_item_closed_g s it s' :
   (forall t, it = IStmt t -> lookup (sop t) incs = None) ->
   (forall ty x h body t, it = IFor ty x h body -> In t body -> lookup (sop t) incs = None) ->
-  (forall ty n shape p l c, it = IArray ty n shape (ARows [[EPar p]]) l c -> par_unused p s) ->
-  st_closed s -> exec_item incs tdm s it = Ok s' -> st_closed s'.
+  st_closed_g sym s -> exec_item incs tdm s it = Ok s' -> st_closed_g sym s'.
 Proof.
-  intros Hst Hfor Htm Hs H. destruct it as [ty n init l c|ty n shape body l c|t|ty x h body].
+  intros Hst Hfor Hs H. destruct it as [ty n init l c|ty n shape body l c|t|ty x h body].
   - unfold exec_item in H. binv_as H x. binv_as H v. binv_as H v'. inversion H; subst. clear H.
     destruct Hs as [H1 H2]. split; simpl.
     + intros y w Hy p Hp. apply In_dict_set in Hy. destruct Hy as [Hy|Hy].
       * inversion Hy; subst.
-        eapply (eval_val_pars (Q:=fun p => In p (add_new (s_pars s) (val_pars init)))); [| |exact E0|].
-        -- intros z u Hz q Hq. apply add_new_incl. eapply H1; eauto.
-        -- intros q Hq. apply add_new_In; auto.
+        eapply (eval_val_pars (Q:=Qin sym (add_new (s_pars s) (val_pars init)))); [| |exact E0|].
+        -- intros z u Hz q Hq. qmono. eapply H1; eauto.
+        -- intros Hsym q Hq. apply Qin_intro; auto. apply add_new_In; auto.
         -- eapply cast_scalar_pars; eauto.
-      * apply add_new_incl. eapply H1; eauto.
-    + intros o Ho p Hp. apply add_new_incl. eapply H2; eauto.
+      * qmono. eapply H1; eauto.
+    + intros o Ho p Hp. qmono. eapply H2; eauto.
   - apply exec_array_inv in H. destruct H as (x & rows & -> & -> & R). destruct Hs as [H1 H2].
-    destruct R as [p sh r cc Hrows Hsh Hsv Hr Hc ->|elems Hnt Hne Hel Hlen ->].
-    + subst rows. destruct (Htm _ _ _ _ _ _ eq_refl) as [U1 U2].
+    destruct R as [p sh r cc Hrows Hnin Hsh Hsv Hr Hc ->|elems Hnt Hne Hel Hlen ->].
+    + subst rows.
       set (names := tmpl_names p (Z.to_nat r) (Z.to_nat cc)).
-      assert (Hkeep: forall q, In q (s_pars s) -> q <> p -> In q (add_new (remove_first p (s_pars s)) names)).
-      { intros q Hq Hne. apply add_new_incl. apply remove_first_keeps; auto. }
+      assert (Hkeep: forall q, Qin sym (s_pars s) q -> Qin sym (add_new (remove_first p (s_pars s)) names) q).
+      { intros q. apply Qin_mono. intros q0 Hq. apply add_new_incl. rewrite remove_first_notin; auto. }
       split; simpl.
       * intros y w Hy q Hq. apply In_dict_set in Hy. destruct Hy as [Hy|Hy].
         -- inversion Hy; subst. simpl in Hq. apply in_flat_map in Hq. destruct Hq as (v & Hv & Hq).
-           apply in_map_iff in Hv. destruct Hv as (nm & <- & Hnm). simpl in Hq. destruct Hq as [<-|[]].
-           apply add_new_In. auto.
-        -- apply Hkeep; [eapply H1; eauto|]. intros ->. eapply U1; eauto.
-      * intros o Ho q Hq. apply Hkeep; [eapply H2; eauto|]. intros ->. eapply U2; eauto.
+           apply in_map_iff in Hv. destruct Hv as (nm & <- & Hnm). simpl in Hq.
+           destruct sym; [|contradiction]. destruct Hq as [<-|[]].
+           simpl. apply add_new_In. auto.
+        -- apply Hkeep. eapply H1; eauto.
+      * intros o Ho q Hq. apply Hkeep. eapply H2; eauto.
     + split; simpl.
       * intros y w Hy q Hq. apply In_dict_set in Hy. destruct Hy as [Hy|Hy].
         -- inversion Hy; subst. simpl in Hq. apply in_flat_map in Hq. destruct Hq as (v & Hv & Hq).
            unfold arr_elems in Hel. destruct (mapM_In Hel Hv) as (e & He & Ev).
-           eapply (arr_elem_pars (Q:=fun p => In p (add_new (s_pars s) (flat_map expr_pars (concat rows)))));
+           eapply (arr_elem_pars (Q:=Qin sym (add_new (s_pars s) (flat_map expr_pars (concat rows)))));
              [| |exact Ev|exact Hq].
-           ++ intros z u Hz q0 Hq0. apply add_new_incl. eapply H1; eauto.
-           ++ intros q0 Hq0. apply add_new_In. right. apply in_flat_map. eauto.
-        -- apply add_new_incl. eapply H1; eauto.
-      * intros o Ho q Hq. apply add_new_incl. eapply H2; eauto.
+           ++ intros z u Hz q0 Hq0. qmono. eapply H1; eauto.
+           ++ intros Hsym q0 Hq0. apply Qin_intro; auto. apply add_new_In. right. apply in_flat_map. eauto.
+        -- qmono. eapply H1; eauto.
+      * intros o Ho q Hq. qmono. eapply H2; eauto.
   - simpl in H. eapply exec_stmt_closed; eauto.
   - apply exec_for_inv in H. destruct H as (vals & s1 & Hv & _ & H & ->).
     set (pars0 := add_new (s_pars s) (hdr_pars h)) in *.
-    assert (Hvals: forall v, In v vals -> value_closed_in pars0 v).
+    assert (Hvals: forall v, In v vals -> forall p, In p (vpars sym v) -> Qin sym pars0 p).
     { intros v Hin p Hp. destruct h as [a b c|l]; simpl in Hv.
       - destruct (parse_digits a); [|discriminate]. destruct (parse_digits b); [|discriminate].
         destruct (match c with Some c' => parse_digits c' | None => Some 1%Z end); [|discriminate].
         binv_as Hv zs. inversion Hv; subst. apply in_map_iff in Hin. destruct Hin as (zz & <- & _). contradiction.
-      - eapply (mapM_eval_val_pars (Q:=fun p => In p pars0)); [| |exact Hv|].
-        + intros y w Hy q Hq. apply add_new_incl. destruct Hs as [H1 _]. eapply H1; eauto.
-        + intros q Hq. apply add_new_In; auto.
+      - eapply (mapM_eval_val_pars (Q:=Qin sym pars0)); [| |exact Hv|].
+        + intros y w Hy q Hq. unfold pars0. qmono. destruct Hs as [H1 _]. eapply H1; eauto.
+        + intros Hsym q Hq. apply Qin_intro; auto. apply add_new_In; auto.
         + apply in_flat_map. eauto. }
-    assert (G: st_closed s1 /\ forall p, In p pars0 -> In p (s_pars s1)).
-    { eapply for_iter_ind with (P := fun s2 => st_closed s2 /\ forall p, In p pars0 -> In p (s_pars s2));
+    assert (G: st_closed_g sym s1 /\ forall p, In p pars0 -> In p (s_pars s1)).
+    { eapply for_iter_ind with (P := fun s2 => st_closed_g sym s2 /\ forall p, In p pars0 -> In p (s_pars s2));
         [| | |exact H].
       - intros s2 v v' [[C1 C2] Cp] Hin Hc. split; [|exact Cp]. split; simpl.
         + intros y w Hy q Hq. apply In_dict_set in Hy. destruct Hy as [Hy|Hy].
-          * inversion Hy; subst. apply Cp. eapply Hvals; eauto. eapply cast_loop_pars; eauto.
+          * inversion Hy; subst. eapply Qin_mono; [exact Cp|]. eapply Hvals; eauto. eapply cast_loop_pars; eauto.
           * eapply C1; eauto.
         + exact C2.
       - intros s2 t s3 [C Cp] Hin Hex. destruct (exec_stmt_closed (Hfor _ _ _ _ _ eq_refl Hin) C Hex) as [C' Hm].
@@ -1567,30 +1805,86 @@ Proof.
 Qed.
 End Closed.
 
-Definition no_array_template (items:list item) : Prop :=
-  forall ty n shape p l c, ~ In (IArray ty n shape (ARows [[EPar p]]) l c) items.
+Theorem exec_item_closed incs tdm s it s' :
+  (forall t, it = IStmt t -> lookup (sop t) incs = None) ->
+  (forall ty x h body t, it = IFor ty x h body -> In t body -> lookup (sop t) incs = None) ->
+  st_closed s -> exec_item incs tdm s it = Ok s' -> st_closed s'.
+Proof. exact (@exec_item_closed_g incs tdm true s it s'). Qed.
 
-Theorem exec_items_closed tdm items : forall s s',
-  no_array_template items -> st_closed s -> exec_items [] tdm s items = Ok s' -> st_closed s'.
+Lemma exec_items_closed_g tdm sym items : forall s s',
+  st_closed_g sym s -> exec_items [] tdm s items = Ok s' -> st_closed_g sym s'.
 Proof.
-  induction items as [|it items IH]; simpl; intros s s' Hn Hs H.
+  induction items as [|it items IH]; simpl; intros s s' Hs H.
   - inversion H; subst; auto.
-  - binv_as H s1. eapply IH; [| |exact H].
-    + intros ty n shape p l c Hin. eapply Hn; right; eauto.
-    + eapply exec_item_closed; [| | |exact Hs|exact E].
-      * reflexivity.
-      * reflexivity.
-      * intros ty n shape p l c ->. exfalso. eapply Hn; left; reflexivity.
+  - binv_as H s1. eapply IH; [|exact H].
+    eapply exec_item_closed_g; [| |exact Hs|exact E]; reflexivity.
 Qed.
 
+Theorem exec_items_closed tdm items : forall s s',
+  st_closed s -> exec_items [] tdm s items = Ok s' -> st_closed s'.
+Proof. exact (@exec_items_closed_g tdm true items). Qed.
+
+Lemma st_closed_g_init sym : st_closed_g sym (mkst [] [] [] [] []).
+Proof. split; simpl; [intros x v []|intros o []]. Qed.
+
+(* every parameter occurring in an operation or in a variable of a loaded program is one of its parameters
+   (no condition on the script: the earlier counterexample, a registered scalar parameter re-used as an array
+   template, is Unspec in the model) *)
 Theorem pars_invariant sc p :
-  no_array_template (sc_items sc) -> denote [] sc = Ok p ->
+  denote [] sc = Ok p ->
   (forall o, In o (p_ops p) -> op_closed_in (p_params p) o) /\ env_closed_in (p_params p) (p_vars p).
 Proof.
-  intros Hn H. apply denote_inv in H. destruct H as (s & H & -> & _ & -> & ->).
+  intro H. apply denote_inv in H. destruct H as (s & H & -> & _ & -> & ->).
   apply exec_items_closed in H; auto.
   - destruct H; split; auto.
-  - split; simpl; [intros x v []|intros o []].
+  - apply (st_closed_g_init true).
+Qed.
+
+(* parameters are only ever inside symbolic values and register transforms: no number of a loaded program
+   contains a parameter *)
+Theorem num_pars_invariant sc p :
+  denote [] sc = Ok p ->
+  (forall o, In o (p_ops p) -> op_num_pars o = []) /\ (forall x v, In (x, v) (p_vars p) -> num_pars v = []).
+Proof.
+  intro H. apply denote_inv in H. destruct H as (s & H & -> & _ & _ & ->).
+  apply (@exec_items_closed_g _ false) in H; [|apply st_closed_g_init].
+  destruct H as [H1 H2]. split.
+  - intros o Ho. apply no_In_nil. intros q Hq. exact (H2 _ Ho _ Hq).
+  - intros x v Hx. apply no_In_nil. intros q Hq. exact (H1 _ _ Hx _ Hq).
+Qed.
+
+(* a loaded template instantiated with parameter-free values: no parameter is left in its operations or variables
+   outside register transforms *)
+Theorem inst_denoted_pars_free sc p sg q :
+  denote [] sc = Ok p ->
+  (forall k u, In (k, u) sg -> term_pars u = []) ->
+  instantiate sg p = Ok q ->
+  (forall o, In o (p_ops q) -> op_pars_nt o = []) /\ (forall x v, In (x, v) (p_vars q) -> value_pars_free v).
+Proof.
+  intros Hd Hsg Hi. destruct (num_pars_invariant Hd) as [N1 N2]. split.
+  - eapply inst_ops_pars_free; eauto.
+  - eapply inst_vars_pars_free; eauto.
+Qed.
+
+(* registered parameters are never removed *)
+Theorem pars_monotone incs tdm s it s' :
+  exec_item incs tdm s it = Ok s' -> forall p, In p (s_pars s) -> In p (s_pars s').
+Proof.
+  intros H p Hp. destruct it as [ty n init l c|ty n shape body l c|t|ty x h body].
+  - unfold exec_item in H. binv_as H x. binv_as H v. binv_as H v'. inversion H; subst. simpl.
+    apply add_new_incl; auto.
+  - apply exec_array_inv in H. destruct H as (x & rows & _ & _ & R).
+    destruct R as [q sh r cc Hrows Hnin Hsh Hsv Hr Hc ->|elems Hnt Hne Hel Hlen ->]; simpl.
+    + apply add_new_incl. rewrite remove_first_notin; auto.
+    + apply add_new_incl; auto.
+  - simpl in H. apply exec_stmt_inv in H. destruct H as (mvs & ms & a & new & _ & _ & _ & _ & ->). simpl.
+    apply add_new_incl; auto.
+  - apply exec_for_inv in H. destruct H as (vals & s1 & _ & _ & H & ->). simpl.
+    eapply for_iter_ind with (P := fun s2 => In p (s_pars s2)); [| | |exact H].
+    + intros s2 v v' HP _ _. exact HP.
+    + intros s2 t s3 HP _ H2. apply exec_stmt_inv in H2.
+      destruct H2 as (mvs & ms & a & new & _ & _ & _ & _ & ->). simpl. apply add_new_incl; auto.
+    + simpl. apply add_new_incl; auto.
 Qed.
 
 (* ================================================================== *)
@@ -1636,13 +1930,22 @@ Example ex_not_tdm_by_value :
             p_ops p = [mkop [79;112] (Some ([VArr VTFloat 1 1 [VFlt (TDec 1 0)]], [])) [0%Z]].
 Proof. eexists. vm_compute. repeat split. Qed.
 
-(* why pars_invariant excludes array templates whose parameter is used elsewhere:
-   float x = {p} ; float array A[1,1] = {p}   leaves {p} in x while p is replaced by p_0_0 in the parameters *)
+(* the earlier counterexample to pars_invariant, float x = {p} ; float array A[1,1] = {p} (p would be replaced
+   by p_0_0 in the parameters while x keeps {p}), is outside the specification: a name already registered as a
+   scalar parameter cannot be an array template *)
 Example ex_template_unregisters :
+  denote [] (mkscript [97] [49] None None []
+               [IScalar VTFloat (DName [120]) (VE (EPar [112])) 0 0;
+                IArray VTFloat (DName [65]) (Some [[49];[49]]) (ARows [[EPar [112]]]) 0 0]) = Unspec.
+Proof. vm_compute. reflexivity. Qed.
+
+(* an array template whose parameter is fresh: the generated names are registered (in row-major order) *)
+Example ex_template_fresh :
   exists p, denote [] (mkscript [97] [49] None None []
-                         [IScalar VTFloat (DName [120]) (VE (EPar [112])) 0 0;
-                          IArray VTFloat (DName [65]) (Some [[49];[49]]) (ARows [[EPar [112]]]) 0 0]) = Ok p /\
-            p_params p = [[112;95;48;95;48]] /\ lookup [120] (p_vars p) = Some (VSym (TPar [112])).
+                         [IScalar VTFloat (DName [120]) (VE (EPar [113])) 0 0;
+                          IArray VTFloat (DName [65]) (Some [[49];[50]]) (ARows [[EPar [112]]]) 0 0]) = Ok p /\
+            p_params p = [[113]; [112;95;48;95;48]; [112;95;48;95;49]] /\
+            lookup [65] (p_vars p) = Some (VArr VTFloat 1 2 [VSym (TPar [112;95;48;95;48]); VSym (TPar [112;95;48;95;49])]).
 Proof. eexists. vm_compute. repeat split. Qed.
 
 (* instantiation substitutes into symbolic (VSym) arguments only: a register transform keeps its parameter *)
@@ -1652,6 +1955,18 @@ Example ex_transform_not_instantiated :
        [mkop [71] (Some ([VTrf (TMul (TPar [112]) (TReg [113;48])); VSym (TPar [112])], [])) [0%Z]] [0%Z] [[112]] [])
     (mkop [115] (Some ([], [([112], VInt 2)])) [4%Z])
   = Ok [mkop [71] (Some ([VTrf (TMul (TPar [112]) (TReg [113;48])); VFlt (TDec 2 0)], [])) [4%Z]].
+Proof. vm_compute. reflexivity. Qed.
+(* instantiation descends into keyword lists and array arguments; the register transform is still left as it is *)
+Example ex_nested_instantiated :
+  expand_include
+    (mkprog [115] [49] None [] None []
+       [mkop [71] (Some ([VArr VTFloat 1 2 [VSym (TPar [112]); VFlt (TDec 1 0)];
+                          VTrf (TMul (TPar [112]) (TReg [113;48]))],
+                         [([107], VList [VSym (TPar [112]); VInt 3])])) [0%Z]] [0%Z] [[112]] [])
+    (mkop [115] (Some ([], [([112], VInt 2)])) [4%Z])
+  = Ok [mkop [71] (Some ([VArr VTFloat 1 2 [VFlt (TDec 2 0); VFlt (TDec 1 0)];
+                          VTrf (TMul (TPar [112]) (TReg [113;48]))],
+                         [([107], VList [VFlt (TDec 2 0); VInt 3])])) [4%Z]].
 Proof. vm_compute. reflexivity. Qed.
 End Examples.
 
@@ -1668,10 +1983,20 @@ Print Assumptions expand_modes.
 Print Assumptions exec_item_closed.
 Print Assumptions exec_items_closed.
 Print Assumptions pars_invariant.
+Print Assumptions num_pars_invariant.
+Print Assumptions pars_monotone.
+Print Assumptions inst_denoted_pars_free.
 Print Assumptions inst_closed.
 Print Assumptions inst_not_template.
 Print Assumptions inst_ops_rel.
 Print Assumptions inst_args_closed.
+Print Assumptions inst_value_list.
+Print Assumptions inst_value_rel.
+Print Assumptions inst_vars_rel.
+Print Assumptions inst_value_pars_free.
+Print Assumptions inst_ops_pars_free.
+Print Assumptions inst_vars_pars_free.
+Print Assumptions inst_op_missing.
 Print Assumptions inst_missing_refused.
 Print Assumptions subst_term_den.
 Print Assumptions tden_closed.
@@ -1694,3 +2019,5 @@ Print Assumptions pnames_not_params.
 Print Assumptions ex_plain.
 Print Assumptions ex_include.
 Print Assumptions ex_template_unregisters.
+Print Assumptions ex_template_fresh.
+Print Assumptions ex_nested_instantiated.
